@@ -189,6 +189,15 @@ func C06(c *vf.Ctx) {
 	c.Cov["rule"] = "prefixes: realisable stimulus sequences generated by TLC simulation of System.tla (Gen) and seeded random ones over {Invoke, NewStream, stream methods, handler actions, write releases, deliveries, soft/hard cancel, armed conn.created point}; tail decided on the real state: close every handle, let the handler return, let the transport flow, then a probe unary RPC. A run is distinct by its recorded lines; every run is validated against SystemTrace.tla."
 }
 
+// holdBack: where the manager's reaction to a cancel is held at an armed point (manager.stream.ctx), the harness is
+// what keeps the calls blocked; the point is released before anything is judged.
+func holdBack(w *sys.World) {
+	if hasPoint(w.Cfg, "manager.stream.ctx") {
+		w.Step(sys.Stim{K: "point", T: "ms_cli"})
+		w.Step(sys.Stim{K: "point", T: "ms_srv"})
+	}
+}
+
 // ---------------------------------------------------------------------------------------------------
 // C04 — cancelling an RPC's context unblocks every operation of that RPC
 
@@ -205,8 +214,9 @@ func C04(c *vf.Ctx) {
 			{Small: false, Soft: false, Threads: thr3},
 			{Small: false, Soft: true, Manual: true, Threads: thr3},
 			{Small: true, Soft: false, GateU: true, Threads: thr3},
+			{Small: true, Soft: false, Points: []string{"manager.stream.ctx"}, Threads: thr3}, // the manager's reaction to a cancel can be held back
 		},
-		scen:    []string{"queued-call-cancelled", "first-recv-flush-parked", "decoding-with-next-message-queued", "undecodable-message"},
+		scen:    []string{"queued-call-cancelled", "first-recv-flush-parked", "decoding-with-next-message-queued", "undecodable-message", "cancel-races-completion"},
 		kinds:   []string{"start", "hstep", "relw", "deliver"},
 		weights: map[string]int{"invoke": 2, "newstream": 3, "op": 8, "hstep": 5, "relw": 5, "deliver": 5},
 		tail: func(w *sys.World, rng *rand.Rand, ts *tailState) {
@@ -221,6 +231,7 @@ func C04(c *vf.Ctx) {
 				if w.Step(sys.Stim{K: "hstep", A: a}) {
 					ts.mark(w, "before")
 					if w.Step(sys.Stim{K: "cancelsrv"}) {
+						holdBack(w)
 						ts.mark(w, "srvcancel")
 						ts.Notes["haction"] = a
 					}
@@ -247,6 +258,7 @@ func C04(c *vf.Ctx) {
 				}
 				return
 			}
+			holdBack(w)
 			ts.mark(w, "cancel")
 			ts.Notes["r"] = fmt.Sprint(r)
 			// later calls on the cancelled RPC must fail at once
@@ -332,7 +344,7 @@ func C04(c *vf.Ctx) {
 					case recvLike && (op.Kind == "Recv" || op.Kind == "Invoke" || op.Kind == "NewStream"):
 						// a blocked receive (or a call waiting for its reply / its turn) reports the context's error;
 						// a message that had already arrived may still be returned
-						if res != "Canceled" && !strings.HasPrefix(res, "msg:") && !localErr(res) {
+						if res != "Canceled" && res != "marshalErr" && !strings.HasPrefix(res, "msg:") && !localErr(res) {
 							out = append(out, finding{"C04", fmt.Sprintf("blocked %s of a cancelled RPC returned %s, not the context's error", op.Kind, res), at, map[string]any{"op": op, "was": bw}})
 						}
 					case !recvLike && !v.r.Cfg.Soft && (op.Kind == "Send1" || op.Kind == "Send2" || op.Kind == "Invoke" || op.Kind == "NewStream"):
@@ -340,7 +352,8 @@ func C04(c *vf.Ctx) {
 						// behind another writer behaves like a later send (io.EOF). An error the director injected into an
 						// earlier write of the same call keeps precedence.
 						inTransport := before.App[op.T] == "tw"
-						if res != "Canceled" && !localErr(res) && !v.relwErr && !(res == "EOF" && !inTransport) {
+						// (a request that does not marshal fails with the encoding's own error whenever the call gets that far)
+						if res != "Canceled" && res != "marshalErr" && !localErr(res) && !v.relwErr && !(res == "EOF" && !inTransport) {
 							out = append(out, finding{"C04", fmt.Sprintf("blocked send (%s) of a cancelled RPC returned %s, not the context's error (hard cancel)", op.Kind, res), at, map[string]any{"op": op, "was": bw}})
 						}
 					}
